@@ -4,7 +4,7 @@
      * locations are flat (one level: not stacked) and every allocation takes ONE location (target.locations = 1);
        the boundary is witnessed by C10_shared_inner_refuted / C11_shared_inner_leak_refuted (shared inner level,
        several locations per target);
-     * location names identify locations; declared capacities are well formed and have a "/" mount point;
+     * location names identify locations; declared capacities are well formed, non-negative and have a "/" mount point;
      * requirements are well formed with non-negative cores and memory;
      * lifecycle (conformance): a job is evaluated for scheduling only while it is not fireable/running; RUNNING is
        notified only to a fireable or running job, FIREABLE only to a fireable one (i.e. repeated);
@@ -208,3 +208,580 @@ Proof.
   - intros H. inversion H. subst. split; [apply wf_default|]. split; [reflexivity|]. split; [reflexivity|].
     intros m [Hm|[]]. right. symmetry. exact Hm.
 Qed.
+
+(* ------------------------------------------------------------------ shapes of the two events on the flat domain *)
+Lemma pick_length v names : (length (pick v names) <= length names)%nat.
+Proof.
+  unfold pick. induction names as [|nm names IH]; simpl; [lia|].
+  rewrite app_length. destruct (find _ v); simpl; lia.
+Qed.
+
+Lemma attempt_single st job cands reqs chosen s' vn :
+  (length chosen <= 1)%nat ->
+  attempt st job cands reqs 1 chosen = Ok (s', vn, true) ->
+  exists c, In c cands /\ is_valid st reqs job c = Ok true /\ allocate st job reqs [c] = Ok s'.
+Proof.
+  intros Hch. unfold attempt. destruct (valid_locations st reqs job cands) as [v|] eqn:Ev; cbn [bind_res]; [|discriminate].
+  destruct (Nat.leb 1 (length v)); [|intros H; inversion H].
+  assert (Hsel : (forall c, In c (if Nat.eqb (length v) 1 then v else pick v chosen) -> In c v) /\
+                 (length (if Nat.eqb (length v) 1 then v else pick v chosen) <= 1)%nat).
+  { destruct (Nat.eqb_spec (length v) 1) as [E|E].
+    - split; [auto|lia].
+    - split; [intros c Hc; eapply pick_in; exact Hc|]. pose proof (pick_length v chosen). lia. }
+  destruct Hsel as [Hin Hlen].
+  destruct (if Nat.eqb (length v) 1 then v else pick v chosen) as [|c0 sel']; [intros H; inversion H|].
+  destruct sel' as [|c1 sel'']; [|simpl in Hlen; lia].
+  destruct (allocate st job reqs [c0]) as [s|] eqn:Ea; cbn [bind_res fst]; [|discriminate].
+  intros H. inversion H. subst. exists c0.
+  destruct (valid_locations_spec _ _ _ _ _ Ev c0 (Hin c0 (or_introl eq_refl))) as [H1 H2].
+  split; [exact H1|]. split; [exact H2|exact Ea].
+Qed.
+
+Lemma is_valid_single st reqs job l : is_valid st reqs job [l] = Ok true -> level_valid st reqs job l = Ok true.
+Proof.
+  simpl. destruct (level_valid st reqs job l) as [b|]; simpl; [|discriminate]. destruct b; [reflexivity|discriminate].
+Qed.
+
+Definition ledger_after (st : sstate) (nm : string) (rq : hw) : res hw :=
+  match lookup nm (hwloc st) with Some cur => hw_add cur rq | None => normalized rq end.
+
+Lemma allocate_single st job reqs l s' :
+  allocate st job reqs [[l]] = Ok s' ->
+  exists jh h, lookup (req_key l) reqs = Some jh /\ ledger_after st (lv_name l) jh = Ok h /\
+    jobs s' = dset job (mkalloc Fireable [[(lv_dep l, lv_name l)]] jh) (jobs st) /\
+    hwloc s' = dset (lv_name l) h (hwloc st) /\
+    locjobs s' = dset (req_key l) (match lookup (req_key l) (locjobs st) with Some js => js ++ [job] | None => [job] end)
+                      (locjobs st).
+Proof.
+  unfold allocate. destruct (lookup (req_key l) reqs) as [jh|] eqn:Er; [|discriminate].
+  simpl. rewrite Er. unfold ledger_after.
+  destruct (lookup (lv_name l) (hwloc st)) as [cur|] eqn:Ec; simpl.
+  - destruct (hw_add cur jh) as [h|] eqn:Eh; simpl; [|discriminate].
+    intros H. inversion H. subst. exists jh, h. simpl. auto.
+  - destruct (normalized jh) as [h|] eqn:Eh; simpl; [|discriminate].
+    intros H. inversion H. subst. exists jh, h. simpl. auto.
+Qed.
+
+Lemma status_cases prev new :
+  (new = Running -> is_active prev = true) -> (new = Fireable -> prev = Fireable) ->
+  (releases prev new = false -> is_active new = is_active prev) /\
+  (releases prev new = true -> is_active prev = true /\ is_active new = false).
+Proof.
+  intros H1 H2. destruct prev, new; simpl; split; intros H; try discriminate; try reflexivity; try (split; reflexivity);
+    try (specialize (H1 eq_refl); discriminate); try (specialize (H2 eq_refl); discriminate).
+Qed.
+
+Lemma replace_replace {V} k (v v' : V) m : replace k v' (replace k v m) = replace k v' m.
+Proof.
+  induction m as [|[k0 v0] m IH]; simpl; [reflexivity|].
+  destruct (String.eqb k k0) eqn:E; simpl; rewrite E; [reflexivity|]. rewrite IH. reflexivity.
+Qed.
+
+(* _free_resources touches only hardware_locations *)
+Lemma free_loc_frame jh usage acc nm s1 :
+  free_loc jh usage acc nm = Ok s1 -> exists st, acc = Ok st /\ jobs s1 = jobs st /\ locjobs s1 = locjobs st.
+Proof.
+  unfold free_loc. destruct acc as [st|]; simpl; [|discriminate].
+  destruct (lookup nm (hwloc st)) as [cur|].
+  - destruct (usage_hw jh _) as [u|]; simpl; [|discriminate].
+    destruct (hw_sub cur jh) as [d|]; simpl; [|discriminate].
+    destruct (hw_add d u) as [h|]; simpl; [|discriminate].
+    intros H. inversion H. exists st. simpl. auto.
+  - intros H. inversion H. exists s1. auto.
+Qed.
+Lemma free_loc_fold_frame' jh usage names : forall acc s,
+  fold_left (free_loc jh usage) names acc = Ok s -> exists st, acc = Ok st /\ jobs s = jobs st /\ locjobs s = locjobs st.
+Proof.
+  induction names as [|nm names IH]; simpl; intros acc s H.
+  - exists s. auto.
+  - destruct (IH _ _ H) as (s1 & E1 & J1 & L1). destruct (free_loc_frame _ _ _ _ _ E1) as (st & E & J & L).
+    exists st. split; [exact E|]. split; congruence.
+Qed.
+Lemma free_loc_fold_frame jh usage names st s :
+  fold_left (free_loc jh usage) names (Ok st) = Ok s -> jobs s = jobs st /\ locjobs s = locjobs st.
+Proof.
+  intros H. destruct (free_loc_fold_frame' _ _ _ _ _ H) as (st0 & E & J & L). inversion E. subst. auto.
+Qed.
+
+Lemma free_levels_cons k locs jh fl fls st :
+  free_levels k locs jh (fl :: fls) st =
+  match nth_names k locs with
+  | [] => Ok st
+  | names =>
+      jh1 <- norm' (match fl_hw fl with Some h => h | None => jh end) ;;
+      s <- fold_left (free_loc jh1 (fl_usage fl)) names (Ok st) ;;
+      free_levels (S k) locs jh1 fls s
+  end.
+Proof. reflexivity. Qed.
+Lemma free_levels_nil k locs jh st :
+  free_levels k locs jh [] st = match nth_names k locs with [] => Ok st | _ => Err MissingMount end.
+Proof. reflexivity. Qed.
+
+Lemma free_levels_frame fls : forall k locs jh st s,
+  free_levels k locs jh fls st = Ok s -> jobs s = jobs st /\ locjobs s = locjobs st.
+Proof.
+  induction fls as [|fl fls IH]; intros k locs jh st s.
+  - rewrite free_levels_nil. destruct (nth_names k locs); intros H; [inversion H; split; reflexivity|discriminate].
+  - rewrite free_levels_cons. destruct (nth_names k locs) as [|n0 ns] eqn:En; intros H; [inversion H; split; reflexivity|].
+    destruct (norm' _) as [jh1|]; cbn [bind_res] in H; [|discriminate].
+    destruct (fold_left (free_loc jh1 (fl_usage fl)) (n0 :: ns) (Ok st)) as [s1|] eqn:Ef; cbn [bind_res] in H; [|discriminate].
+    apply free_loc_fold_frame in Ef. apply IH in H. destruct Ef, H. split; congruence.
+Qed.
+
+(* releasing a flat single-location allocation *)
+Lemma free_levels_flat d nm jh fls st s :
+  free_levels 0 [[(d, nm)]] jh fls st = Ok s ->
+  match lookup nm (hwloc st) with
+  | None => hwloc s = hwloc st
+  | Some cur =>
+      exists fl rest jh1 u dd r, fls = fl :: rest /\
+        norm' (match fl_hw fl with Some h => h | None => jh end) = Ok jh1 /\
+        usage_hw jh1 (match lookup nm (fl_usage fl) with Some x => x | None => None end) = Ok u /\
+        hw_sub cur jh1 = Ok dd /\ hw_add dd u = Ok r /\ hwloc s = dset nm r (hwloc st)
+  end.
+Proof.
+  destruct fls as [|fl rest]; [rewrite free_levels_nil; simpl; discriminate|].
+  rewrite free_levels_cons. cbn [nth_names flat_map nth_error app snd].
+  destruct (norm' _) as [jh1|] eqn:En; cbn [bind_res]; [|discriminate].
+  cbn [fold_left]. unfold free_loc at 1. cbn [bind_res].
+  destruct (lookup nm (hwloc st)) as [cur|] eqn:Ec.
+  - destruct (usage_hw jh1 _) as [u|] eqn:Eu; cbn [bind_res]; [|discriminate].
+    destruct (hw_sub cur jh1) as [dd|] eqn:Ed; cbn [bind_res]; [|discriminate].
+    destruct (hw_add dd u) as [r|] eqn:Er; cbn [bind_res]; [|discriminate].
+    intros H. assert (Hs : hwloc s = dset nm r (hwloc st)).
+    { destruct rest; simpl in H; inversion H; reflexivity. }
+    exists fl, rest, jh1, u, dd, r. auto 10.
+  - intros H. destruct rest; simpl in H; inversion H; reflexivity.
+Qed.
+
+Lemma notify_jobs st job new fls a st' :
+  lookup job (jobs st) = Some a -> notify st job new fls = Ok st' ->
+  jobs st' = replace job (mkalloc new (if status_eqb new Rollback then [] else a_locs a) (a_hw a)) (jobs st).
+Proof.
+  intros Hl. unfold notify. rewrite Hl. simpl.
+  destruct (if releases (a_status a) new then _ else _) as [s2|] eqn:E2; simpl; [|discriminate].
+  assert (Hj : jobs s2 = replace job (mkalloc new (a_locs a) (a_hw a)) (jobs st)).
+  { destruct (releases (a_status a) new).
+    - apply free_levels_frame in E2. destruct E2 as [E2 _]. exact E2.
+    - inversion E2. reflexivity. }
+  destruct (status_eqb new Rollback); intros H; inversion H; subst; simpl.
+  - rewrite Hj. apply replace_replace.
+  - exact Hj.
+Qed.
+
+Lemma notify_hwloc st job new fls a st' :
+  lookup job (jobs st) = Some a -> notify st job new fls = Ok st' ->
+  (releases (a_status a) new = false -> hwloc st' = hwloc st) /\
+  (releases (a_status a) new = true -> forall d nm, a_locs a = [[(d, nm)]] ->
+     match lookup nm (hwloc st) with
+     | None => hwloc st' = hwloc st
+     | Some cur =>
+         exists fl rest jh1 u dd r, fls = fl :: rest /\
+           norm' (match fl_hw fl with Some h => h | None => a_hw a end) = Ok jh1 /\
+           usage_hw jh1 (match lookup nm (fl_usage fl) with Some x => x | None => None end) = Ok u /\
+           hw_sub cur jh1 = Ok dd /\ hw_add dd u = Ok r /\ hwloc st' = dset nm r (hwloc st)
+     end).
+Proof.
+  intros Hl. unfold notify. rewrite Hl. simpl.
+  destruct (releases (a_status a) new) eqn:Erel.
+  - destruct (free_levels 0 (a_locs a) (a_hw a) fls _) as [s2|] eqn:E2; simpl; [|discriminate].
+    intros H. assert (Hh : hwloc st' = hwloc s2) by (destruct (status_eqb new Rollback); inversion H; reflexivity).
+    split; [discriminate|]. intros _ d nm Hloc. rewrite Hloc in E2. apply free_levels_flat in E2. simpl in E2.
+    rewrite Hh. exact E2.
+  - simpl. intros H. split; [|discriminate]. intros _.
+    destruct (status_eqb new Rollback); inversion H; reflexivity.
+Qed.
+
+(* ------------------------------------------------------------------ contributions *)
+Lemma contrib_inactive nm x a : is_active (a_status a) = false -> contrib nm x a = 0.
+Proof. intros H. unfold contrib. rewrite H. reflexivity. Qed.
+Lemma contrib_at s d n jh nm x :
+  contrib nm x (mkalloc s [[(d, n)]] jh) = if is_active s && String.eqb n nm then mu jh x else 0.
+Proof. reflexivity. Qed.
+Lemma contrib_nonneg nm x a : wfr (a_hw a) -> 0 <= contrib nm x a.
+Proof. intros H. unfold contrib. destruct (_ && _); [apply mu_nonneg; exact H|lia]. Qed.
+Lemma cnt_inactive nm a : is_active (a_status a) = false -> cnt nm a = 0.
+Proof. intros H. unfold cnt. rewrite H. reflexivity. Qed.
+
+Lemma dset_present {V} k (v old : V) m : lookup k m = Some old -> dset k v m = replace k v m.
+Proof. intros H. unfold dset. rewrite H. reflexivity. Qed.
+
+Lemma size_at_default m : size_at default_hw m = 0.
+Proof.
+  unfold size_at. change (values (stor default_hw)) with [root_storage]. unfold total.
+  destruct (String.eqb (mount root_storage) m); reflexivity.
+Qed.
+
+Section Hist.
+Variable locs : list level.
+Hypothesis locs_names : forall l1 l2, In l1 locs -> In l2 locs -> lv_name l1 = lv_name l2 -> l1 = l2.
+Hypothesis locs_caps : forall l cap, In l locs -> lv_cap l = Some cap -> wfr cap /\ In "/" (mounts cap).
+
+Definition ghost := string -> meas -> Z.
+Definition g0 : ghost := fun _ _ => 0.
+
+(* static conditions on the events of the domain *)
+Definition ev_ok (e : event) : Prop :=
+  match e with
+  | EAttempt job cands reqs n chosen =>
+      n = 1%nat /\ (length chosen <= 1)%nat /\ (forall c, In c cands -> exists l, c = [l] /\ In l locs) /\
+      (forall k h, In (k, h) reqs -> wfr h)
+  | ENotify job new fls => forall fl rest, fls = fl :: rest -> fl_hw fl = None
+  end.
+
+(* lifecycle conformance of an event in a state *)
+Definition conf (st : sstate) (e : event) : Prop :=
+  match e with
+  | EAttempt job _ _ _ _ => job_active st job = false
+  | ENotify job new fls =>
+      match lookup job (jobs st) with
+      | None => True
+      | Some a =>
+          (new = Running -> is_active (a_status a) = true) /\ (new = Fireable -> a_status a = Fireable) /\
+          (forall fl rest nm jh1 u, fls = fl :: rest -> loc_of a = Some nm -> norm' (a_hw a) = Ok jh1 ->
+             usage_hw jh1 (match lookup nm (fl_usage fl) with Some x => x | None => None end) = Ok u ->
+             forall m, size_at u m <= size_at jh1 m)
+      end
+  end.
+
+(* the measured usage recorded by an event (ghost state: what du reported for released reservations) *)
+Definition gstep (st : sstate) (e : event) (G : ghost) : ghost :=
+  match e with
+  | ENotify job new (fl :: _) =>
+      match lookup job (jobs st) with
+      | Some a =>
+          if releases (a_status a) new then
+            match loc_of a with
+            | Some nm =>
+                match lookup nm (hwloc st) with
+                | Some _ =>
+                    match norm' (a_hw a) with
+                    | Ok jh1 =>
+                        match usage_hw jh1 (match lookup nm (fl_usage fl) with Some x => x | None => None end) with
+                        | Ok u => fun n x => if String.eqb n nm then G n x + mu u x else G n x
+                        | Err _ => G
+                        end
+                    | Err _ => G
+                    end
+                | None => G
+                end
+            | None => G
+            end
+          else G
+      | None => G
+      end
+  | _ => G
+  end.
+
+Definition Inv (st : sstate) (G : ghost) : Prop :=
+  NoDup (keys (jobs st)) /\
+  (forall j a, In (j, a) (jobs st) -> wfr (a_hw a) /\
+     (is_active (a_status a) = true ->
+        exists l h, In l locs /\ a_locs a = [[(lv_dep l, lv_name l)]] /\ lookup (lv_name l) (hwloc st) = Some h /\
+                    forall m, In m (mounts (a_hw a)) -> In m (mounts h))) /\
+  (forall nm h, lookup nm (hwloc st) = Some h -> wf h) /\
+  (forall nm x, mu_o (lookup nm (hwloc st)) x = reserved st nm x + G nm x) /\
+  (forall nm, G nm MC = 0 /\ G nm MM = 0 /\ forall m, 0 <= G nm (MS m)) /\
+  (forall l cap h, In l locs -> lv_cap l = Some cap -> lookup (lv_name l) (hwloc st) = Some h ->
+     (forall x, mu h x <= mu cap x) /\ (forall m, In m (mounts h) -> In m (mounts cap))).
+
+Lemma inv_init : Inv init g0.
+Proof.
+  unfold Inv, init, reserved. simpl. repeat split; try (intros; contradiction); try (intros; discriminate); try reflexivity; try lia.
+  constructor.
+Qed.
+
+Lemma inv_attempt st G job cands reqs n chosen st' vn al :
+  Inv st G -> ev_ok (EAttempt job cands reqs n chosen) -> job_active st job = false ->
+  attempt st job cands reqs n chosen = Ok (st', vn, al) -> Inv st' G.
+Proof.
+  intros HI (Hn & Hch & Hcands & Hreqs) Hna Hat. destruct al; [|apply attempt_fail_unchanged in Hat; subst; exact HI].
+  subst n. destruct (attempt_single _ _ _ _ _ _ _ Hch Hat) as (c & Hc & Hv & Hal).
+  destruct (Hcands c Hc) as (l & Ec & Hl). subst c.
+  apply is_valid_single in Hv.
+  destruct (allocate_single _ _ _ _ _ Hal) as (jh & h & Er & Eh & Ej & Ehw & _).
+  destruct HI as (K & A & L & E & Gz & C).
+  assert (Wj : wfr jh) by (apply (Hreqs (req_key l)); apply lookup_some_in; exact Er).
+  set (name := lv_name l) in *.
+  assert (F : wf h /\ (forall x, mu h x = mu_o (lookup name (hwloc st)) x + mu jh x) /\
+              (forall m, In m (mounts h) <-> In m (mounts_o (lookup name (hwloc st))) \/ In m (mounts jh))).
+  { unfold ledger_after in Eh. destruct (lookup name (hwloc st)) as [cur|] eqn:Ec.
+    - destruct (mu_add cur jh (L _ _ Ec) (proj1 Wj)) as (r & Er' & Wr & M1 & M2).
+      rewrite Er' in Eh. inversion Eh. subst. simpl. auto.
+    - destruct (mu_normalized jh (proj1 Wj)) as (r & Er' & Wr & M1 & M2).
+      rewrite Er' in Eh. inversion Eh. subst. simpl. split; [exact Wr|]. split; [intros x; rewrite M1; lia|].
+      intros m. rewrite M2. tauto. }
+  destruct F as (Wh & Fm & Fmt).
+  assert (Hold : forall nm x, match lookup job (jobs st) with Some old => contrib nm x old | None => 0 end = 0).
+  { intros nm x. unfold job_active in Hna. destruct (lookup job (jobs st)) as [old|]; [|reflexivity].
+    apply contrib_inactive. exact Hna. }
+  unfold Inv. rewrite Ej, Ehw. split; [apply NoDup_keys_dset; exact K|]. split; [|split; [|split; [|split; [exact Gz|]]]].
+  - (* A *)
+    intros j a Hi. apply in_dset in Hi; [|exact K]. destruct Hi as [[Ej' Ea]|[Hne Hi]].
+    + subst. simpl. split; [exact Wj|]. intros _. exists l, h. split; [exact Hl|]. split; [reflexivity|].
+      split; [apply lookup_dset|]. intros m Hm. apply Fmt. right. exact Hm.
+    + destruct (A j a Hi) as [Hw Hact]. split; [exact Hw|]. intros Ha.
+      destruct (Hact Ha) as (l0 & h0 & Hl0 & Hlocs & Hlk & Hm0).
+      destruct (String.eqb_spec (lv_name l0) name) as [En|En].
+      * exists l0, h. split; [exact Hl0|]. split; [exact Hlocs|]. rewrite En. split; [apply lookup_dset|].
+        intros m Hm. apply Fmt. left. rewrite <- En, Hlk. simpl. apply Hm0. exact Hm.
+      * exists l0, h0. split; [exact Hl0|]. split; [exact Hlocs|]. split; [rewrite lookup_dset_other by exact En; exact Hlk|exact Hm0].
+  - (* L *)
+    intros nm h1 Hlk. destruct (String.eqb_spec nm name) as [En|En].
+    + subst nm. rewrite lookup_dset in Hlk. inversion Hlk. subst. exact Wh.
+    + rewrite lookup_dset_other in Hlk by exact En. apply (L _ _ Hlk).
+  - (* E *)
+    intros nm x. unfold reserved. rewrite Ej, sumf_dset, Hold.
+    fold (reserved st nm x). rewrite contrib_at. cbn [is_active andb].
+    destruct (String.eqb_spec name nm) as [En|En].
+    + subst nm. rewrite lookup_dset. simpl. rewrite Fm, E. lia.
+    + rewrite lookup_dset_other by congruence. rewrite E. lia.
+  - (* C *)
+    intros l2 cap2 h2 Hl2 Hc2 Hlk2. destruct (String.eqb_spec (lv_name l2) name) as [En|En].
+    + assert (l2 = l) by (apply locs_names; assumption). subst l2. fold name in Hlk2.
+      rewrite lookup_dset in Hlk2. inversion Hlk2. subst h2. clear Hlk2.
+      destruct (locs_caps l cap2 Hl Hc2) as [[Wc _] Hroot].
+      set (cur := match lookup name (hwloc st) with Some h0 => h0 | None => default_hw end).
+      assert (Pc : wf cur /\ (forall m, In m (mounts cur) -> In m (mounts cap2)) /\
+                   (forall m, size_at cur m <= size_at cap2 m) /\
+                   (forall x, mu cur x = mu_o (lookup name (hwloc st)) x) /\
+                   (forall m, In m (mounts_o (lookup name (hwloc st))) -> In m (mounts cap2))).
+      { unfold cur. destruct (lookup name (hwloc st)) as [c0|] eqn:Ec.
+        - destruct (C l cap2 c0 Hl Hc2 Ec) as [C1 C2]. split; [apply (L _ _ Ec)|]. split; [exact C2|].
+          split; [intros m; apply (C1 (MS m))|]. split; [reflexivity|exact C2].
+        - split; [apply wf_default|]. split; [intros m [Hm|[]]; subst; exact Hroot|].
+          split; [intros m; rewrite size_at_default; apply total_nonneg; apply Wc|].
+          split; [intros [| |m]; simpl; try reflexivity; apply size_at_default|intros m []]. }
+      destruct Pc as (Wcur & Pm & Ps & Pmu & Pmo).
+      destruct (cap_level_valid_fits st reqs job l cap2 jh cur Hc2 Er eq_refl Wc Wcur (proj1 Wj) Pm Ps Hv)
+        as (F1 & F2 & F3).
+      split.
+      * intros x. rewrite Fm, <- Pmu. destruct x as [| |m]; simpl; try lia.
+        destruct (in_dec string_dec m (mounts jh)) as [Hi|Hi].
+        -- apply F3. exact Hi.
+        -- rewrite (size_at_notin jh m Hi). specialize (Ps m). lia.
+      * intros m Hm. apply Fmt in Hm. destruct Hm as [Hm|Hm]; [apply Pmo; exact Hm|apply F3; exact Hm].
+    + rewrite lookup_dset_other in Hlk2 by exact En. apply (C l2 cap2 h2 Hl2 Hc2 Hlk2).
+Qed.
+
+Lemma inv_notify st G job new fls st' :
+  Inv st G -> ev_ok (ENotify job new fls) -> conf st (ENotify job new fls) ->
+  notify st job new fls = Ok st' -> Inv st' (gstep st (ENotify job new fls) G).
+Proof.
+  intros HI Hok Hconf Hno. simpl in Hconf.
+  destruct (lookup job (jobs st)) as [a|] eqn:Hl.
+  2:{ unfold notify in Hno. rewrite Hl in Hno. inversion Hno. subst.
+      unfold gstep. rewrite Hl. destruct fls; exact HI. }
+  destruct Hconf as (Hc1 & Hc2 & Hc3).
+  pose proof (notify_jobs _ _ _ _ _ _ Hl Hno) as Ej.
+  destruct (notify_hwloc _ _ _ _ _ _ Hl Hno) as [Hh1 Hh2].
+  destruct (status_cases (a_status a) new Hc1 Hc2) as [Hs1 Hs2].
+  set (a' := mkalloc new (if status_eqb new Rollback then [] else a_locs a) (a_hw a)) in *.
+  rewrite <- (dset_present job a' a _ Hl) in Ej.
+  destruct HI as (K & A & L & E & Gz & C).
+  pose proof (lookup_some_in _ _ _ Hl) as Hina.
+  destruct (A job a Hina) as [Wa Hacta].
+  destruct (releases (a_status a) new) eqn:Erel.
+  - (* the notification releases the reservation *)
+    destruct (Hs2 eq_refl) as [Hap Han].
+    destruct (Hacta Hap) as (l & cur & Hlin & Hlocs & Hlk & Hmnt).
+    set (name := lv_name l) in *.
+    specialize (Hh2 eq_refl _ _ Hlocs). fold name in Hh2. rewrite Hlk in Hh2.
+    destruct Hh2 as (fl & rest & jh1 & u & dd & r & Efls & En & Eu & Ed & Er & Ehw).
+    rewrite (Hok fl rest Efls) in En.
+    assert (Hloc : loc_of a = Some name) by (unfold loc_of; rewrite Hlocs; reflexivity).
+    destruct (mu_norm' (a_hw a) (proj1 Wa)) as (j0 & En0 & Wj & Mj & Mtj). rewrite En in En0. inversion En0. subst j0. clear En0.
+    destruct (usage_hw_spec _ _ _ Eu) as (Wu & Uc & Um & Umt).
+    assert (Hcontrib : forall x, contrib name x a = mu (a_hw a) x).
+    { intros x. unfold contrib, on. rewrite Hap, Hloc, String.eqb_refl. reflexivity. }
+    assert (Hnn : forall k a0, In (k, a0) (jobs st) -> forall x, 0 <= contrib name x a0).
+    { intros k a0 Hi x. apply contrib_nonneg. apply (A k a0 Hi). }
+    destruct (mu_sub cur jh1 (L _ _ Hlk) Wj) as (d0 & Ed0 & Wd & Md & Mtd).
+    { intros m Hm. apply Hmnt. apply Mtj. exact Hm. }
+    { intros m. specialize (E name (MS m)). rewrite Hlk in E. simpl in E.
+      assert (contrib name (MS m) a <= reserved st name (MS m)).
+      { unfold reserved. apply (sumf_ge _ _ job a); [intros k a0 Hi; apply (Hnn k a0 Hi)|exact Hina]. }
+      rewrite Hcontrib in H. simpl in H. pose proof (proj2 (proj2 (Gz name)) m).
+      specialize (Mj (MS m)). simpl in Mj. lia. }
+    rewrite Ed in Ed0. inversion Ed0. subst d0. clear Ed0.
+    destruct (mu_add dd u Wd Wu) as (r0 & Er0 & Wr & Mr & Mtr). rewrite Er in Er0. inversion Er0. subst r0. clear Er0.
+    assert (Hg : gstep st (ENotify job new fls) G = fun n x => if String.eqb n name then G n x + mu u x else G n x).
+    { unfold gstep. rewrite Efls, Hl, Erel, Hloc, Hlk, En, Eu. reflexivity. }
+    rewrite Hg. clear Hg.
+    assert (Ha'0 : forall nm x, contrib nm x a' = 0) by (intros; apply contrib_inactive; exact Han).
+    unfold Inv. rewrite Ej, Ehw. split; [apply NoDup_keys_dset; exact K|]. split; [|split; [|split; [|split]]].
+    + (* A *)
+      intros j a0 Hi. apply in_dset in Hi; [|exact K]. destruct Hi as [[Ej' Ea]|[Hne Hi]].
+      * subst. split; [exact Wa|]. intros Hx. simpl in Hx. congruence.
+      * destruct (A j a0 Hi) as [Hw Hact]. split; [exact Hw|]. intros Ha.
+        destruct (Hact Ha) as (l0 & h0 & Hl0 & Hlocs0 & Hlk0 & Hm0).
+        destruct (String.eqb_spec (lv_name l0) name) as [Enm|Enm].
+        -- exists l0, r. split; [exact Hl0|]. split; [exact Hlocs0|]. rewrite Enm. split; [apply lookup_dset|].
+           intros m Hm. apply Mtr. left. apply Mtd. rewrite Enm in Hlk0. rewrite Hlk in Hlk0. inversion Hlk0. subst h0.
+           apply Hm0. exact Hm.
+        -- exists l0, h0. split; [exact Hl0|]. split; [exact Hlocs0|].
+           split; [rewrite lookup_dset_other by exact Enm; exact Hlk0|exact Hm0].
+    + (* L *)
+      intros nm h1 Hlk1. destruct (String.eqb_spec nm name) as [Enm|Enm].
+      * subst nm. rewrite lookup_dset in Hlk1. inversion Hlk1. subst. exact Wr.
+      * rewrite lookup_dset_other in Hlk1 by exact Enm. apply (L _ _ Hlk1).
+    + (* E *)
+      intros nm x. unfold reserved. rewrite Ej, sumf_dset, Hl, Ha'0. fold (reserved st nm x).
+      destruct (String.eqb_spec nm name) as [Enm|Enm].
+      * subst nm. rewrite lookup_dset. simpl. rewrite Mr, Md, Mj, Hcontrib.
+        specialize (E name x). rewrite Hlk in E. simpl in E. lia.
+      * rewrite lookup_dset_other by exact Enm. rewrite E.
+        assert (contrib nm x a = 0).
+        { unfold contrib, on. rewrite Hloc. destruct (String.eqb_spec name nm); [congruence|]. rewrite andb_false_r. reflexivity. }
+        lia.
+    + (* Gz *)
+      intros nm. destruct (Gz nm) as (G1 & G2 & G3). destruct (String.eqb nm name); [|auto].
+      simpl. split; [lia|]. split; [lia|]. intros m. specialize (G3 m).
+      assert (0 <= size_at u m) by (apply total_nonneg; apply Wu). lia.
+    + (* C *)
+      intros l2 cap2 h2 Hl2 Hcap2 Hlk2. destruct (String.eqb_spec (lv_name l2) name) as [Enm|Enm].
+      * assert (l2 = l) by (apply locs_names; assumption). subst l2. fold name in Hlk2.
+        rewrite lookup_dset in Hlk2. inversion Hlk2. subst h2. clear Hlk2.
+        destruct (C l cap2 cur Hlin Hcap2 Hlk) as [C1 C2].
+        destruct (locs_caps l cap2 Hlin Hcap2) as [_ Hroot].
+        split.
+        -- intros x. rewrite Mr, Md. specialize (C1 x).
+           assert (mu u x <= mu jh1 x).
+           { destruct x as [| |m]; simpl.
+             - rewrite Uc. specialize (Mj MC). simpl in Mj. destruct Wa as (_ & Wc & _). lia.
+             - rewrite Um. specialize (Mj MM). simpl in Mj. destruct Wa as (_ & _ & Wm). lia.
+             - apply (Hc3 fl rest name jh1 u Efls Hloc En Eu). }
+           lia.
+        -- intros m Hm. apply Mtr in Hm. destruct Hm as [Hm|Hm].
+           ++ apply C2. apply Mtd. exact Hm.
+           ++ destruct (Umt m Hm) as [Hj|Hj]; [|subst; exact Hroot]. apply C2. apply Hmnt. apply Mtj. exact Hj.
+      * rewrite lookup_dset_other in Hlk2 by exact Enm. apply (C l2 cap2 h2 Hl2 Hcap2 Hlk2).
+  - (* no release: the ledger is untouched and the job's contribution does not change *)
+    specialize (Hh1 eq_refl). specialize (Hs1 eq_refl).
+    assert (Hg : gstep st (ENotify job new fls) G = G).
+    { unfold gstep. destruct fls; [reflexivity|]. rewrite Hl, Erel. reflexivity. }
+    rewrite Hg. clear Hg.
+    assert (Hlocs' : is_active new = true -> a_locs a' = a_locs a).
+    { intros Hx. unfold a'. simpl. destruct new; simpl in *; try discriminate; reflexivity. }
+    assert (Hca : forall nm x, contrib nm x a' = contrib nm x a).
+    { intros nm x. unfold contrib. change (a_status a') with new. rewrite Hs1.
+      destruct (is_active (a_status a)) eqn:Eact; [|reflexivity].
+      unfold on, loc_of. rewrite Hlocs' by (rewrite Hs1; reflexivity). reflexivity. }
+    unfold Inv. rewrite Ej, Hh1. split; [apply NoDup_keys_dset; exact K|]. split; [|split; [exact L|split; [|split; [exact Gz|exact C]]]].
+    + intros j a0 Hi. apply in_dset in Hi; [|exact K]. destruct Hi as [[Ej' Ea]|[Hne Hi]].
+      * subst. split; [exact Wa|]. intros Hx. change (a_status a') with new in Hx.
+        rewrite Hlocs' by exact Hx. apply Hacta. rewrite <- Hs1. exact Hx.
+      * apply (A j a0 Hi).
+    + intros nm x. unfold reserved. rewrite Ej, sumf_dset, Hl, Hca. fold (reserved st nm x). rewrite E. lia.
+Qed.
+
+(* ------------------------------------------------------------------ histories *)
+Fixpoint conformant (st : sstate) (es : list event) : Prop :=
+  match es with
+  | [] => True
+  | e :: es' => ev_ok e /\ conf st e /\ match step st e with Ok s => conformant s es' | Err _ => True end
+  end.
+Fixpoint measured (st : sstate) (es : list event) (G : ghost) : ghost :=
+  match es with
+  | [] => G
+  | e :: es' => match step st e with Ok s => measured s es' (gstep st e G) | Err _ => G end
+  end.
+
+Lemma inv_step st G e st' : Inv st G -> ev_ok e -> conf st e -> step st e = Ok st' -> Inv st' (gstep st e G).
+Proof.
+  intros HI Hok Hc Hs. destruct e as [job cands reqs n chosen|job new fls].
+  - simpl in Hs. destruct (attempt st job cands reqs n chosen) as [[[s vn] al]|] eqn:Ea; simpl in Hs; [|discriminate].
+    inversion Hs. subst. simpl. eapply inv_attempt; eauto.
+  - simpl in Hs. apply inv_notify; assumption.
+Qed.
+
+Theorem inv_run es : forall st G st', Inv st G -> conformant st es -> run st es = Ok st' -> Inv st' (measured st es G).
+Proof.
+  induction es as [|e es IH]; simpl; intros st G st' HI Hc Hr.
+  - inversion Hr. subst. exact HI.
+  - destruct Hc as (Hok & Hcf & Hrest). destruct (step st e) as [s|] eqn:Es; simpl in Hr; [|discriminate].
+    apply (IH s _ st' (inv_step _ _ _ _ HI Hok Hcf Es) Hrest Hr).
+Qed.
+
+Lemma conformant_prefix p : forall st q, conformant st (p ++ q) -> conformant st p.
+Proof.
+  induction p as [|e p IH]; simpl; intros st q H; [exact I|].
+  destruct H as (H1 & H2 & H3). split; [exact H1|]. split; [exact H2|].
+  destruct (step st e); [apply (IH _ q H3)|exact I].
+Qed.
+
+(* C10_capacity (hardware part): after any prefix of a conformant history, on every location with declared
+   hardware, what the fireable/running jobs reserve is the ledger minus the measured residue, the residue is
+   non-negative (zero on cores and memory), and the ledger is within the capacity: on cores, memory and every
+   mount point. *)
+Theorem capacity_invariant p q st l cap :
+  conformant init (p ++ q) -> run init p = Ok st -> In l locs -> lv_cap l = Some cap ->
+  let G := measured init p g0 in
+  let led := mu_o (lookup (lv_name l) (hwloc st)) in
+  (forall x, reserved st (lv_name l) x = led x - G (lv_name l) x) /\
+  G (lv_name l) MC = 0 /\ G (lv_name l) MM = 0 /\ (forall m, 0 <= G (lv_name l) (MS m)) /\
+  (forall x, reserved st (lv_name l) x <= led x) /\ (forall x, led x <= mu cap x) /\
+  (forall x, reserved st (lv_name l) x <= mu cap x).
+Proof.
+  intros Hc Hr Hl Hcap G led. apply conformant_prefix in Hc.
+  destruct (inv_run p init g0 st inv_init Hc Hr) as (K & A & L & E & Gz & C). fold G in E, Gz.
+  destruct (Gz (lv_name l)) as (G1 & G2 & G3).
+  assert (Hres : forall x, reserved st (lv_name l) x = led x - G (lv_name l) x) by (intros x; unfold led; rewrite E; lia).
+  assert (Hgx : forall x, 0 <= G (lv_name l) x) by (intros [| |m]; [lia|lia|apply G3]).
+  assert (Hled : forall x, led x <= mu cap x).
+  { intros x. unfold led. destruct (lookup (lv_name l) (hwloc st)) as [h|] eqn:Eh.
+    - apply (C l cap h Hl Hcap Eh).
+    - simpl. specialize (E (lv_name l) x). rewrite Eh in E. simpl in E.
+      destruct (locs_caps l cap Hl Hcap) as [[Wc [Wc1 Wc2]] _].
+      assert (0 <= reserved st (lv_name l) x).
+      { unfold reserved. apply sumf_nonneg. intros k a Hi. apply contrib_nonneg. apply (A k a Hi). }
+      specialize (Hgx x). assert (reserved st (lv_name l) x = 0) by lia.
+      destruct x as [| |m]; simpl.
+      + exact Wc1.
+      + exact Wc2.
+      + apply total_nonneg. apply Wc. }
+  repeat split; auto.
+  - intros x. rewrite Hres. specialize (Hgx x). lia.
+  - intros x. rewrite Hres. specialize (Hgx x). specialize (Hled x). lia.
+Qed.
+
+(* C11_release: after any conformant history (any notification order, any repetitions), in a state where no job is
+   fireable or running, every ledger has cores = memory = 0 and, per mount point, exactly the measured usage *)
+Theorem release_invariant es st nm h :
+  conformant init es -> run init es = Ok st ->
+  (forall j a, In (j, a) (jobs st) -> is_active (a_status a) = false) ->
+  lookup nm (hwloc st) = Some h ->
+  cores h = 0 /\ mem h = 0 /\ forall m, size_at h m = measured init es g0 nm (MS m).
+Proof.
+  intros Hc Hr Hna Hlk.
+  destruct (inv_run es init g0 st inv_init Hc Hr) as (K & A & L & E & Gz & C).
+  assert (Hz : forall x, reserved st nm x = 0).
+  { intros x. unfold reserved. apply sumf_zero. intros k a Hi. apply contrib_inactive. apply (Hna k a Hi). }
+  destruct (Gz nm) as (G1 & G2 & _).
+  split; [|split].
+  - specialize (E nm MC). rewrite Hlk, Hz in E. simpl in E. lia.
+  - specialize (E nm MM). rewrite Hlk, Hz in E. simpl in E. lia.
+  - intros m. specialize (E nm (MS m)). rewrite Hlk, Hz in E. simpl in E. lia.
+Qed.
+
+(* the same per location: a location on which no job is fireable/running holds exactly its measured residue *)
+Theorem release_invariant_loc es st nm h :
+  conformant init es -> run init es = Ok st ->
+  (forall j a, In (j, a) (jobs st) -> is_active (a_status a) = true -> loc_of a <> Some nm) ->
+  lookup nm (hwloc st) = Some h ->
+  cores h = 0 /\ mem h = 0 /\ forall m, size_at h m = measured init es g0 nm (MS m).
+Proof.
+  intros Hc Hr Hna Hlk.
+  destruct (inv_run es init g0 st inv_init Hc Hr) as (K & A & L & E & Gz & C).
+  assert (Hz : forall x, reserved st nm x = 0).
+  { intros x. unfold reserved. apply sumf_zero. intros k a Hi. unfold contrib.
+    destruct (is_active (a_status a)) eqn:Ea; [|reflexivity]. simpl. unfold on.
+    specialize (Hna k a Hi Ea). destruct (loc_of a) as [n|]; [|reflexivity].
+    destruct (String.eqb_spec n nm); [subst; congruence|reflexivity]. }
+  destruct (Gz nm) as (G1 & G2 & _).
+  split; [|split].
+  - specialize (E nm MC). rewrite Hlk, Hz in E. simpl in E. lia.
+  - specialize (E nm MM). rewrite Hlk, Hz in E. simpl in E. lia.
+  - intros m. specialize (E nm (MS m)). rewrite Hlk, Hz in E. simpl in E. lia.
+Qed.
+End Hist.
